@@ -190,9 +190,29 @@ def subTargetOk (S : Schema) (a : Attr) (t : Nat) : Bool :=
   | some tc => lower tc.name == a.name && !tc.name.contains '.' && S.findIdx? tc.name == some t
   | none => false
 
+/-- the class has no rename hooks, or `groom` / `ungroom` are inverse renames around a non-repeated data element
+    whose source tag is no child's tag -/
+def groomOkB (c : Cls) : Bool :=
+  match c.groom, c.ungroom with
+  | none, none => true
+  | some r, some u =>
+    u.fromTag == r.toTag && u.toTag == r.fromTag && !r.toTag.contains '.' &&
+    !(c.spec.map (·.name)).contains (lower r.fromTag) &&
+    c.spec.any (fun a => a.name == lower u.fromTag && !a.kind.isList &&
+      (match a.kind with | .sub _ => false | _ => true))
+  | _, _ => false
+
+/-- an `ElementList` has exactly one `ListElement` attribute and no other repeated child -/
+def elShapeOk (c : Cls) : Bool :=
+  (match c.spec.filter (fun a => a.kind.isListElem) with
+   | [a] => (match a.kind with | .listElem _ _ => true | _ => false)
+   | _ => false) &&
+  c.spec.all (fun b => !b.kind.isList || b.kind.isListElem)
+
 /-- the class-level facts the aggregate round-trip theorem uses, in directly decidable form
     (`OfxProofs/Lemmas/WFBridge.lean` turns this into `Agg.ClsWF`) -/
 def roundTripOk (S : Schema) (c : Cls) : Bool :=
+  (!c.elementList || elShapeOk c) &&
   decide (namesOf c).Nodup &&
   c.spec.all (fun a => enumRefOk S.enums a.kind) &&
   c.spec.all (fun a => lower (upper a.name) == a.name && !(upper a.name).contains '.') &&
